@@ -62,6 +62,11 @@ pub enum Op {
     /// create an Acquire future for n permits, poll it `polls` (1 or 2) times with a scheduling
     /// point in between, then drop it unfinished (cancellation); if it completes it is released
     SemCancel(usize, usize, usize),
+    /// create an Acquire future for n permits, poll it once and, if it is pending, park it in the
+    /// semaphore's stash slot (the future outlives this operation and may outlive the task)
+    SemStash(usize, usize),
+    /// take the stashed Acquire future (created and first polled by another task) and await it
+    SemTakeAwait(usize),
     ResetSteps,
     /// access thread-local key k (0..3) of the static pool
     TlsWith(usize),
@@ -71,6 +76,9 @@ pub enum Op {
     StaticOnce(usize),
     /// thread::current() id / name check
     ThreadInfo,
+    /// set a custom label on the current task (returns the previous one) / read it
+    LabelSet,
+    LabelGet,
     /// thread::scope: spawn the listed bodies as scoped threads, run the inner ops in the
     /// owner inside the scope closure, leave the scope (waits for all scoped threads).
     /// Flattened labels: "i.b0".."i.bN" (spawns), "i.0".. (inner ops), "i.end".
@@ -210,6 +218,8 @@ pub struct Ctx {
     barriers: Vec<Barrier>,
     onces: Vec<Once>,
     atomics: Vec<AtomicU64>,
+    /// parked Acquire futures (borrowing `sems`; declared first so that they are dropped first)
+    stash: Vec<StdMutex<Option<(std::pin::Pin<Box<shuttle_engine::future::batch_semaphore::Acquire<'static>>>, usize)>>>,
     sems: Vec<BatchSemaphore>,
     tx: Vec<Vec<StdMutex<Option<Tx>>>>,
     rx: Vec<StdMutex<Option<mpsc::Receiver<u64>>>>,
@@ -301,6 +311,7 @@ impl Ctx {
             barriers: r.barriers.iter().map(|n| Barrier::new(*n)).collect(),
             onces: (0..r.onces).map(|_| Once::new()).collect(),
             atomics: (0..r.atomics).map(|_| AtomicU64::new(0)).collect(),
+            stash: r.sems.iter().map(|_| StdMutex::new(None)).collect(),
             sems: r.sems.iter().map(|(n, fair)| BatchSemaphore::new(*n, if *fair { Fairness::StrictlyFair } else { Fairness::Unfair })).collect(),
             tx,
             rx,
@@ -509,6 +520,10 @@ fn exec_catch(l: &mut Local, i: usize, inner: &[Op]) {
 
 /// a value living on the task's stack for the whole body: dropped at the end of the body, or when
 /// the stack of an abandoned task is unwound at the end of the execution
+/// custom task label used by LabelSet / LabelGet
+#[derive(Clone, Debug, PartialEq)]
+pub struct VLabel(pub u64);
+
 pub struct StackVal(usize);
 
 impl Drop for StackVal {
@@ -977,6 +992,52 @@ fn exec_op(l: &mut Local, label: &str, uv: u64, op: &Op) {
                 }
             }
         }
+        Op::SemStash(sm, n) => {
+            use std::future::Future;
+            use std::task::{Context, Poll};
+            if ctx.stash[*sm].lock().unwrap().is_some() {
+                "skip".into()
+            } else {
+                let sem = &ctx.sems[*sm];
+                let fut = sem.acquire(*n);
+                // the future borrows a semaphore that lives in the same context as the stash slot
+                let fut: shuttle_engine::future::batch_semaphore::Acquire<'static> = unsafe { std::mem::transmute(fut) };
+                let mut fut = Box::pin(fut);
+                let waker = futures::task::noop_waker();
+                let mut cx = Context::from_waker(&waker);
+                match fut.as_mut().poll(&mut cx) {
+                    Poll::Ready(Ok(())) => {
+                        drop(fut);
+                        sem.release(*n);
+                        format!("acquired:{}", sem.available_permits())
+                    }
+                    Poll::Ready(Err(_)) => {
+                        drop(fut);
+                        format!("err:{}", sem.available_permits())
+                    }
+                    Poll::Pending => {
+                        *ctx.stash[*sm].lock().unwrap() = Some((fut, *n));
+                        format!("stashed:{}", sem.available_permits())
+                    }
+                }
+            }
+        }
+        Op::SemTakeAwait(sm) => {
+            let taken = ctx.stash[*sm].lock().unwrap().take();
+            match taken {
+                None => "skip".into(),
+                Some((fut, n)) => {
+                    let sem = &ctx.sems[*sm];
+                    match shuttle::future::block_on(fut) {
+                        Ok(()) => {
+                            sem.release(n);
+                            format!("ok:{}", sem.available_permits())
+                        }
+                        Err(_) => format!("err:{}", sem.available_permits()),
+                    }
+                }
+            }
+        }
         Op::ResetSteps => {
             shuttle::current::reset_step_count();
             "".into()
@@ -1008,6 +1069,17 @@ fn exec_op(l: &mut Local, label: &str, uv: u64, op: &Op) {
             });
             "".into()
         }
+        Op::LabelSet => {
+            let old = shuttle::current::set_label_for_task(shuttle::current::me(), VLabel(uv));
+            match old {
+                Some(VLabel(v)) => v.to_string(),
+                None => "none".into(),
+            }
+        }
+        Op::LabelGet => match shuttle::current::get_label_for_task::<VLabel>(shuttle::current::me()) {
+            Some(VLabel(v)) => v.to_string(),
+            None => "none".into(),
+        },
         Op::ThreadInfo => {
             let t = thread::current();
             let id: usize = t.id().into();
@@ -1473,7 +1545,11 @@ fn gen_op(
         13 => ops.push(Op::Rand(2 + rng.below(5) as u64)),
         15 => ops.push(Op::TlsWith(rng.below(3))),
         16 => ops.push(if rng.chance(1, 2) { Op::LazyGet(rng.below(2)) } else { Op::StaticOnce(rng.below(2)) }),
-        17 => ops.push(Op::ThreadInfo),
+        17 => ops.push(match rng.below(3) {
+            0 => Op::ThreadInfo,
+            1 => Op::LabelSet,
+            _ => Op::LabelGet,
+        }),
         18 => ops.push(Op::ResetSteps),
         19 => {
             let sm = rng.below(res.sems.len());
